@@ -76,10 +76,17 @@ func (s SideCar) RetrieveAttribute(f *os.File, bucket, object, attribute string)
 }
 
 // StoreAttribute stores the value of a specific attribute for an object or a bucket.
-func (s SideCar) StoreAttribute(_ *os.File, bucket, object, attribute string, value []byte) error {
+func (s SideCar) StoreAttribute(f *os.File, bucket, object, attribute string, value []byte) error {
 	metadir := filepath.Join(s.dir, bucket, object, sidecarmeta)
 	if object == "" {
 		metadir = filepath.Join(s.dir, bucket, sidecarmeta)
+	}
+	// no attributes for a file that does not exist (see RetrieveAttribute)
+	if f == nil {
+		_, err := os.Lstat(filepath.Join(bucket, object))
+		if errors.Is(err, os.ErrNotExist) || errors.Is(err, syscall.ENOTDIR) {
+			return err
+		}
 	}
 	err := os.MkdirAll(metadir, 0777)
 	if err != nil {
